@@ -378,92 +378,6 @@ def reads (s : State) (now : Nat) (ticks : List (Nat × Nat)) : Nat → State ×
   | 0 => (s, Out.none)
   | n + 1 => read (reads s now ticks n).1 now ticks
 
-theorem willExpire_zero {s : State} (now : Nat) (h0 : s.cfg.fdtDuration = 0) (hq : s.fdtQueue = []) :
-    currentFdtWillExpire s now = true := by
-  unfold currentFdtWillExpire
-  rw [hq, h0]
-  simp only [List.isEmpty_nil, Bool.not_true, Bool.false_eq_true, if_false]
-  split <;> simp
-
-/-- with `fdt_duration = 0` and admission, the FDT session always has a packet: a running transfer continues,
-    otherwise a fresh instance is published (or popped), started and its first packet returned -/
-theorem runFdt_zero_duration {s : State} {L : Held} (fuel now : Nat) (hw : Wf s L) (h0 : s.cfg.fdtDuration = 0)
-    (hfit : s.cfg.fdtFits = true) : ∃ k id i, (runFdt (fuel + 2) s now).2 = Out.fdt k id i := by
-  -- the idle case: get_next publishes if the queue is empty, then the head of the queue is started
-  have idle : ∀ (s1 : State) (L1 : Held) (fuel1 : Nat), Wf s1 L1 → s1.cfg.fdtDuration = 0 → s1.cfg.fdtFits = true →
-      s1.fdtSess = none → ∃ k id i, (runFdt (fuel1 + 1) s1 now).2 = Out.fdt k id i := by
-    intro s1 L1 fuel1 hw1 h01 hfit1 hs1
-    by_cases hq : s1.fdtQueue = []
-    · -- nothing queued: the current instance "expires" at once
-      have hbusy : fdtBusy s1 = false := hw1.fdtSessNone hs1
-      have hmp : fdtMaybePublish s1 now = publish s1 now := by
-        unfold fdtMaybePublish publishTry
-        rw [willExpire_zero now h01 hq, hfit1]; simp
-      have hw2 : Wf (publish s1 now) L1 := Wf.publish now hw1
-      have hq2 : (publish s1 now).fdtQueue ≠ [] := by rw [publish_fdtQueue]; simp
-      have hs2 : (publish s1 now).fdtSess = none := hs1
-      obtain ⟨k, id, i, he⟩ := runFdt_emits_pending fuel1 now hw2 hs2 hq2
-      refine ⟨k, id, i, ?_⟩
-      -- runFdt on s1 and on (publish s1 now) coincide after the first get_next
-      unfold runFdt at he ⊢
-      simp only [hs1, hs2] at he ⊢
-      have e1 : fdtGetNext s1 now = fdtAdvance (publish s1 now) now := by
-        unfold fdtGetNext; rw [hbusy, hmp]; simp
-      have hbusy2 : fdtBusy (publish s1 now) = false := hw2.fdtSessNone hs2
-      have hmp2 : fdtMaybePublish (publish s1 now) now = publish s1 now := by
-        unfold fdtMaybePublish currentFdtWillExpire
-        cases hql : (publish s1 now).fdtQueue with
-        | nil => exact absurd hql hq2
-        | cons a r => simp
-      have e2 : fdtGetNext (publish s1 now) now = fdtAdvance (publish s1 now) now := by
-        unfold fdtGetNext; rw [hbusy2, hmp2]; simp
-      rw [e1]; rw [e2] at he; exact he
-    · exact runFdt_emits_pending fuel1 now hw1 hs1 hq
-  cases hs : s.fdtSess with
-  | none => exact idle s L (fuel + 1) hw h0 hfit hs
-  | some c =>
-    obtain ⟨hcur, hst, f, hf, _, hle⟩ := hw.fdtSessSome c hs
-    have hsh := (hw.fdtKeys f (getF_mem hf)).2
-    unfold runFdt
-    simp only [hs, hf, gate_of_shape hsh now, Bool.false_eq_true, if_false]
-    rw [encRead_eq]
-    have hst' : ¬ c.enc.stopped = true := by rw [hst]; simp
-    rw [if_neg hst']
-    by_cases hlt : c.enc.sent < (if f.nSym = 0 then 1 else f.nSym)
-    · rw [if_pos hlt]; exact ⟨_, _, _, rfl⟩
-    · rw [if_neg hlt]
-      simp only []
-      have hw2 : Wf (fdtRelease s c.key now) L := Wf.fdtDone now hw (by
-        -- quiet is irrelevant for Wf.fdtDone except for the clause it re-establishes
-        cases hqq : s.quiet with
-        | false => rfl
-        | true => have := hw.quiet hqq; rw [hs] at this; cases this) hs hf
-      have h02 : (fdtRelease s c.key now).cfg.fdtDuration = 0 := by
-        unfold fdtRelease; show (transferDoneFdt s c.key now).cfg.fdtDuration = 0; rw [transferDoneFdt_cfg]; exact h0
-      have hfit2 : (fdtRelease s c.key now).cfg.fdtFits = true := by
-        unfold fdtRelease; show (transferDoneFdt s c.key now).cfg.fdtFits = true; rw [transferDoneFdt_cfg]; exact hfit
-      exact idle _ L fuel hw2 h02 hfit2 rfl
-
-/-- F24: with `fdt_duration = 0` (and an FDT that fits) `read` returns an FDT packet in EVERY reachable state -
-    at a fixed instant repeated reads never return `None`, and no object packet is ever sent -/
-theorem read_zero_duration (cfg : Cfg) (tbl : List Nat) (ops : List Op) (h0 : cfg.fdtDuration = 0)
-    (hfit : cfg.fdtFits = true) (now : Nat) (ticks : List (Nat × Nat)) :
-    ∃ k id i, (read (run (init cfg tbl) ops) now ticks).2 = Out.fdt k id i := by
-  have hw := wf_run cfg tbl ops
-  have hc := (const_run cfg tbl ops).2
-  generalize run (init cfg tbl) ops = s at hw hc
-  have hw0 : Wf (emit s (.opRead now)) (heldOf s) := Wf.emit _ hw
-  have e : runFuel = 2 + 2 := rfl
-  obtain ⟨k, id, i, he⟩ := runFdt_zero_duration 2 now hw0 (by show s.cfg.fdtDuration = 0; rw [hc]; exact h0)
-    (by show s.cfg.fdtFits = true; rw [hc]; exact hfit)
-  unfold read
-  rw [e]
-  generalize runFdt (2 + 2) (emit s (.opRead now)) now = r at he
-  obtain ⟨s1, o⟩ := r
-  simp only [] at he
-  subst he
-  exact ⟨k, id, i, rfl⟩
-
 /-! ### an idle sender stays idle under every operation except `add_object` -/
 
 def IdleS (s : State) : Prop := s.files = [] ∧ s.queue = [] ∧ AllNone s.sessions
